@@ -1584,3 +1584,24 @@ Proof.
   - pose proof (inv_nodup w I') as N. rewrite RE in N. exact N.
 Qed.
 Print Assumptions worklist_establishes_tr_block.
+
+(* ---------- C03: the case table built for a switch implements the selection of the source semantics ---------- *)
+Theorem switch_table_selects cases ret sid st el :
+  (ndef cases <= 1)%nat ->
+  sw_loop (S (List.length cases)) cases 0 ret {| sw_new := []; sw_cases := []; sw_def := None; sw_counter := sid |} = (st, el) ->
+  (el = true -> forall m, select_case cases m = []) /\
+  (el = false -> forall m,
+     match first_case (sw_cases st) m with
+     | Some d => In (mk d ret (select_case cases m) None) (sw_new st)
+     | None => match sw_def st with
+               | Some dd => In (mk dd ret (select_case cases m) None) (sw_new st)
+               | None => select_case cases m = []
+               end
+     end).
+Proof.
+  intros ND H. rewrite sw_loop_suf in H. change (skipn 0 cases) with cases in H.
+  assert (PRE0 : Pre ret [] {| sw_new := []; sw_cases := []; sw_def := None; sw_counter := sid |}) by (constructor; cbn; auto).
+  assert (LL : (List.length cases < S (List.length cases))%nat) by lia.
+  destruct (sw_suf_spec ret _ _ [] _ _ _ H LL PRE0 ND) as [EL NEL]. cbn [app] in EL, NEL. split; [exact EL|].
+  intros E m. specialize (NEL E m). unfold tok, hasb in NEL. destruct (first_case (sw_cases st) m); [exact NEL|]. destruct (sw_def st); exact NEL.
+Qed.
